@@ -41,7 +41,7 @@ def value_term(v):
     """the value with the renderings Python's % operator gives it (the digits are external to the model)"""
     x = pyval(v)
     if isinstance(x, int):
-        return '(VInt %s)' % cstr(str(x))
+        return '(VInt (%d))' % x
     if isinstance(x, str):
         return '(VStr %s)' % cstr(x)
     if math.isnan(x):
@@ -106,7 +106,7 @@ def F(x):
     return {'f': float(x).hex()}
 
 
-INTS = [{'i': v} for v in (0, 1, -1, 42, -17, 100000, 2 ** 31, -2 ** 63, 10 ** 20, 7)]
+INTS = [{"i": v} for v in (0, 1, -1, 42, -17, 100000, 2 ** 31, -2 ** 63, 10 ** 20, 7, 9, 10, -10, 99, 100, 10 ** 30 + 7, -(10 ** 25), 2 ** 64 - 1)]
 FLOATS = [F(v) for v in (0.0, -0.0, 1.0, 2.0, -3.0, 1e16, 1e22, 123456789.0, 0.5, 0.1, -0.1, 1 / 3, 2 / 3, 1e-7, 3.14159,
                          123456.789, 5e-324, 1.7976931348623157e308, 2.2250738585072014e-308, 1e15 + 0.5,
                          4503599627370495.5, 0.30000000000000004, 1e-300, 6.02214076e23, -2.5e-5,
